@@ -197,6 +197,37 @@ def run(rep):
             rep.fail("pack-count", "add_objects: the pack index lists %s entries for %s distinct objects" % (r["entries"], r["unique"]), case)
         elif r.get("git_index_pack") != 0:
             rep.fail("git-rejects-pack", "git index-pack --strict on the pack written by add_objects: %s" % r.get("git_err"), case)
+    # packs written from objects that already sit deltified in a pack: reused deltas, reused compressed chunks, subsets
+    reqs = []
+    for k in range(16 if not thorough else 200):
+        base = rng.randbytes(rng.choice([300, 2000]))
+        chain = [base]
+        for _ in range(rng.choice([2, 5, 12])):
+            chain.append(edit(rng, rng.choice(chain), 1))
+        chain = list(dict.fromkeys(chain))
+        n = len(chain)
+        how = rng.choice(["container", "container", "data"])
+        subset = list(range(n)) if how == "data" or rng.random() < 0.4 else sorted(rng.sample(range(n), rng.randrange(1, n + 1)))
+        reqs.append({"fn": "repack_roundtrip", "blobs": [hx(b) for b in chain], "source": rng.choice(["git", "dulwich"]), "ofs": rng.random() < 0.5, "how": how,
+                     "subset": subset, "deltify": rng.random() < 0.3, "reuse": rng.random() < 0.8, "comp": rng.random() < 0.6, "level": rng.choice([-1, 0, 9])})
+    reused = 0
+    for q, r in zip(reqs, impl.run(reqs)):
+        case = {k: v for k, v in q.items() if k not in ("fn", "blobs")}
+        case["n"] = len(q["blobs"])
+        rep.case("repack-roundtrip", key=repr(q)[:1500], nontrivial=r.get("src_deltas", 0) > 0, outcome="%s/%s" % (q["how"], "deltas" if r.get("out_deltas") else "full"), sample=case)
+        reused += 1 if r.get("out_deltas") else 0
+        if "setup_exc" in r:
+            rep.note("repack source could not be built: %r" % (r,))
+            continue
+        if "write_exc" in r or "read_exc" in r or "random_ok" not in r:
+            rep.fail("repack-io-failed", "writing a pack from packed objects, or reading it back, failed: %r" % (r,), case)
+            continue
+        for flag in ("random_ok", "seq_ok", "check_ok"):
+            if not r.get(flag):
+                rep.fail("repack-" + flag, "pack rewritten from packed objects: %s is false" % flag, case)
+        if r.get("git_index_pack") != 0:
+            rep.fail("git-rejects-pack", "git index-pack --strict on a pack rewritten from packed objects: %s" % r.get("git_err"), case)
+    rep.extra["repacks_with_reused_deltas"] = reused
     reqs = []
     for k in range(8 if not thorough else 120):
         base = rng.randbytes(4000)
